@@ -266,29 +266,9 @@ fn scratch_file(tag: &str) -> std::path::PathBuf {
     dir.join(format!("c19-{}-{tag}.alist", std::process::id()))
 }
 
-/// makes `text` readable under `path`: as a regular file, or (a quarter of the texts) as a named pipe
-/// whose writer delivers the text in two pieces 40 ms apart, as `mkfifo` + a slow producer would
+/// the alist text as a regular file, or (a quarter of the texts) as a named pipe fed in two pieces
 fn provide_file(path: &std::path::Path, text: &str) -> Check {
-    if text.len() % 4 == 1 && text.len() >= 2 {
-        let c = std::ffi::CString::new(path.to_str().unwrap()).unwrap();
-        let _ = std::fs::remove_file(path);
-        if unsafe { libc::mkfifo(c.as_ptr(), 0o600) } == 0 {
-            let (p, t) = (path.to_path_buf(), text.as_bytes().to_vec());
-            std::thread::spawn(move || {
-                use std::io::Write;
-                // blocks until the constructor opens the pipe for reading
-                if let Ok(mut f) = std::fs::OpenOptions::new().write(true).open(&p) {
-                    let cut = t.len() * 2 / 5 + 1;
-                    let _ = f.write_all(&t[..cut]);
-                    let _ = f.flush();
-                    std::thread::sleep(std::time::Duration::from_millis(40));
-                    let _ = f.write_all(&t[cut..]);
-                }
-            });
-            return Ok(());
-        }
-    }
-    std::fs::write(path, text).map_err(|e| Fail::new(INCONCLUSIVE, format!("cannot write scratch file: {e}")))
+    write_file_or_pipe(path, text, text.len() % 4 == 1).map_err(|e| Fail::new(INCONCLUSIVE, format!("cannot write scratch file: {e}")))
 }
 
 fn cstr(s: &str) -> CString {
